@@ -305,7 +305,18 @@ def _strip_row_shape(v, nx):
         shp = a.args[1:] if len(a.args) == 3 else (a.args[1] if len(a.args) == 2 and isinstance(a.args[1], tuple) else None)
         if shp is not None and len(shp) == 2 and same_value(tuple(shp), (Rat.const(1), nx)):
             return a.args[0]
+    # x[numpy.newaxis, :] of the vector x: the same (1, len(x)) row
+    if isinstance(a, Fn) and a.name == "getitem" and isinstance(a.args[0], Rat) and isinstance(a.args[1], tuple) and len(a.args[1]) == 2 \
+            and a.args[1][0] is None and _full_slice(a.args[1][1]):
+        return a.args[0]
+    if isinstance(a, Fn) and a.name == "grid" and len(a.args) == 2 and isinstance(a.args[0], Rat) and a.args[1] == 1:
+        return a.args[0]
     return v
+
+
+def _full_slice(x):
+    return isinstance(x, tuple) and len(x) == 4 and x[0] == "slice" and x[2] is None and x[3] is None and \
+        (x[1] is None or (isinstance(x[1], Rat) and x[1].is_zero()))
 
 
 def _where_T(stencil):
